@@ -32,18 +32,40 @@ def owners(ex, st, cls, n, tag):
 def check_fill_queue(chk, ex, found):
     fn = ex.func("helpers", "_fill_queue")
     for n_items, n_workers in ((1, 1), (3, 2), (2, 3)):
-        st = X.State()
-        q = st.new_obj("$queue", {"items": (), "feed": (), "closed": False})
-        lq = st.new_obj("$queue", {"items": (), "feed": (), "closed": False})
         items = [Sym(z3.Int("item%d" % i), "item") for i in range(n_items)]
-        outs = ex.call_function(fn, [q, list(items), Const(n_workers), lq], {}, st)
-        name = "_fill_queue[%d items,%d workers]" % (n_items, n_workers)
-        row(chk, name + ":returns", len(outs) == 1 and outs[0].kind == "return", [o.kind for o in outs], found)
-        for o in outs:
-            got = o.state.objs[q.oid]["fields"]["items"]
-            want = items + [None] * n_workers
-            ok = len(got) == len(want) and all((w is None and isinstance(g, Const) and g.v is None) or (w is not None and g is w) for g, w in zip(got, want))
-            row(chk, name + ":every-item-once-in-order-then-one-pill-per-worker", ok, repr(got), found)
+        for as_gen in (False, True):
+            # 'items may be given as a list or as a generator': a one-shot iterator gives each item once
+            st = X.State()
+            q = st.new_obj("$queue", {"items": (), "feed": (), "closed": False})
+            lq = st.new_obj("$queue", {"items": (), "feed": (), "closed": False})
+            arg = st.new_obj("$generator", {"items": tuple(items)}) if as_gen else list(items)
+            outs = ex.call_function(fn, [q, arg, Const(n_workers), lq], {}, st)
+            name = "_fill_queue[%d items%s,%d workers]" % (n_items, " from a generator" if as_gen else "", n_workers)
+
+            def found(n_items=n_items, n_workers=n_workers, as_gen=as_gen):
+                # the real function on in-process queues
+                import queue as _q
+
+                helpers = chk.module("helpers")
+                src = ["item-%d" % i for i in range(n_items)]
+                q_, lq_ = _q.Queue(), _q.Queue()
+                try:
+                    helpers._fill_queue(q_, (x for x in src) if as_gen else list(src), n_workers, lq_)
+                except Exception as e:
+                    return {"key": "_fill_queue(%s of %d items, %d workers)" % ("generator" if as_gen else "list", n_items, n_workers), "observed": "raised %s: %s" % (type(e).__name__, e), "expected": "items then pills", "how": "real function, in-process queues"}
+                got_ = []
+                while not q_.empty():
+                    got_.append(q_.get())
+                if got_ != src + [None] * n_workers:
+                    return {"key": "_fill_queue(%s of %d items, %d workers)" % ("generator" if as_gen else "list", n_items, n_workers), "observed": repr(got_), "expected": repr(src + [None] * n_workers), "how": "real function, in-process queues"}
+                return None
+
+            row(chk, name + ":returns", len(outs) == 1 and outs[0].kind == "return", [o.kind for o in outs], found)
+            for o in outs:
+                got = o.state.objs[q.oid]["fields"]["items"]
+                want = items + [None] * n_workers
+                ok = len(got) == len(want) and all((w is None and isinstance(g, Const) and g.v is None) or (w is not None and g is w) for g, w in zip(got, want))
+                row(chk, name + ":every-item-once-in-order-then-one-pill-per-worker", ok, repr(got), found)
 
 
 def sketch_tuple(ex, st, refs):
@@ -395,6 +417,18 @@ def merge_tree_part(chk, kinds=("hll",)):
     chk.assumptions.add("synchronous-process abstraction (see skv/props/_helpers.py); parallel_merging is checked for concrete worker counts (bounded in n, unbounded in contents)")
 
 
+def partition_part(chk):
+    """the queue side of parallel_add (used by C02: 'how the stream is partitioned across sketches'):
+    every item is queued once followed by one pill per worker; a worker applies the callback once per
+    received item and stops only at the pill"""
+    ex = _helpers.make_exec(chk, {("process-start",): start_hook})
+    for f in (check_fill_queue, lambda c, e, fo: check_worker(c, e, fo, False, 2, "2 items")):
+        try:
+            f(chk, ex, None)
+        except X.Unsupported as e:
+            chk.undecided.append(("helpers", "unsupported construct in glue: %s" % e))
+
+
 def run(chk):
     cache = {}
 
@@ -407,8 +441,9 @@ def run(chk):
             f(chk, ex, found)
         except X.Unsupported as e:
             chk.undecided.append(("helpers", "unsupported construct in glue: %s" % e))
-    from . import C16
+    from . import C15, C16
 
+    C15.merge_glue(chk, ["CountMinLinear", "CountMinLog16", "CountMinLog8", "HyperLogLog", "HeavyHitters"])  # the merges at the end sum tables and both counters
     C16.attach_helper_part(chk, glue.make_exec(chk), found)  # what a worker attaches to is the parent's sketch: same parameters
     pickle_precondition(chk, ex)
     chk.assumptions.update(glue.ASSUMED)
